@@ -271,6 +271,10 @@ def build(s):
         return E.UseDepDefault(s[1], s[2], s[3])
     if k == "multi":
         return P.PackageRestrictionMulti(("iuse_stripped", "use"), build(s[1]), negate=s[2])
+    if k == "multia":      # PackageRestrictionMulti over an arbitrary attribute tuple
+        return P.PackageRestrictionMulti(tuple(s[1].split(",")), build(s[2]), negate=s[3])
+    if k == "conda":       # Conditional over another attribute than "use"
+        return P.Conditional(s[1], build(s[2]), tuple(build(c) for c in s[3]), negate=s[4])
     if k == "cond":
         return P.Conditional("use", build(s[1]), tuple(build(c) for c in s[2]), negate=s[3])
     if k == "rnode":        # as DepSet.parse builds the groups of REQUIRED_USE: no node_type
@@ -382,6 +386,13 @@ def render(s, obj, ids):
     if k == "multi":
         return (f"RMulti 8 {cbool(s[2])} [[{cstr('iuse_stripped')}]; [{cstr('use')}]] "
                 f"{P(render(s[1], obj.restriction, ids))}")
+    if k == "multia":
+        attrs = clist([clist([cstr(x) for x in a.split(".")]) for a in s[1].split(",")], "list str")
+        return f"RMulti 8 {cbool(s[3])} {attrs} {P(render(s[2], obj.restriction, ids))}"
+    if k == "conda":
+        kids = [P(render(c, o, ids)) for c, o in zip(s[3], obj.payload)]
+        return (f"RCond {cbool(s[4])} {clist([cstr(x) for x in s[1].split('.')])} "
+                f"{P(render(s[2], obj.restriction, ids))} {clist(kids, 'restr')}")
     if k == "cond":
         kids = [P(render(c, o, ids)) for c, o in zip(s[2], obj.payload)]
         return (f"RCond {cbool(s[3])} [{cstr('use')}] {P(render(s[1], obj.restriction, ids))} "
@@ -508,6 +519,24 @@ def g_value(rng, subject):
     return ("ver", rng.choice(OPS), rng.choice(S_VER), rng.choice(S_REV), rng.random() < 0.45)
 
 
+SET_ATTRS = ("iuse_stripped", "use")
+STR_ATTRS = ("slot", "subslot", "category", "package", "repo.repo_id", "nosuch")
+STR_VALS = ("0", "1", "2", "2.1", "a", "b", "gentoo", "x")
+
+
+def g_multia(rng):
+    """PackageRestrictionMulti over a VARYING attribute tuple: pairs of set-valued attributes around a
+    _UseDepDefaultContainment tree, or 2-3 string-valued attributes around a ContainmentMatch of such values"""
+    if rng.random() < 0.45:
+        attrs = (rng.choice(SET_ATTRS), rng.choice(SET_ATTRS))
+        child = g_value(rng, 2)
+    else:
+        attrs = tuple(rng.choice(STR_ATTRS) for _ in range(rng.choice((2, 2, 3))))
+        vals = tuple(rng.sample(STR_VALS, rng.choice((1, 1, 2))))
+        child = ("cont", vals, rng.random() < 0.4, rng.random() < 0.3)
+    return ("multia", ",".join(attrs), child, rng.random() < 0.25)
+
+
 def g_flags(rng):
     fl = list(FLAGS)
     rng.shuffle(fl)
@@ -537,8 +566,10 @@ def g_pkg(rng, depth=2):
     if r < 0.76:
         f, t = g_flags(rng)
         return ("udd", rng.random() < 0.5, f, t)
-    if r < 0.80:
+    if r < 0.78:
         return ("multi", g_value(rng, 2), rng.random() < 0.3)
+    if r < 0.80:
+        return g_multia(rng)
     if r < 0.86:
         return ("atom", rng.choice(ATOMS), rng.random() < 0.25)
     if depth <= 0:
@@ -702,9 +733,28 @@ def variant(rng, s):
                            ("udd", not s[1], shuffled(rng, s[2]), shuffled(rng, s[3])), ("static", s[2], s[3])])
     if k == "multi":
         return rng.choice([s, flipat(s, 2), ("multi", variant(rng, s[1]), s[2]), ("multi", variant(rng, s[1]), s[2])])
+    if k == "multia":
+        attrs = s[1].split(",")
+        pool = SET_ATTRS if all(a in SET_ATTRS for a in attrs) else STR_ATTRS
+        i = rng.randrange(len(attrs))
+        swapped = attrs[:i] + [rng.choice([a for a in pool if a != attrs[i]])] + attrs[i + 1:]
+        opts = [s, ("multia", ",".join(reversed(attrs)), s[2], s[3]), ("multia", ",".join(reversed(attrs)), s[2], s[3]),
+                ("multia", ",".join(swapped), s[2], s[3]), ("multia", ",".join(swapped), s[2], s[3]),
+                ("multia", ",".join(shuffled(rng, attrs)), s[2], s[3]), flipat(s, 3),
+                ("multia", s[1], variant(rng, s[2]), s[3])]
+        if pool is STR_ATTRS:
+            opts += [("multia", ",".join(attrs + attrs[:1]), s[2], s[3]), ("multia", ",".join(attrs[:-1] or attrs), s[2], s[3])]
+        elif attrs == ["iuse_stripped", "use"] and s[2][0] == "udc":
+            opts.append(("multi", s[2], s[3]))
+        return rng.choice(opts)
+    if k == "conda":
+        other = "use" if s[1] != "use" else "iuse_stripped"
+        return rng.choice([s, ("conda", other, s[2], s[3], s[4]), ("conda", other, s[2], s[3], s[4]), flipat(s, 4),
+                           ("conda", s[1], variant(rng, s[2]), s[3], s[4])])
     if k == "cond":
         pl = s[2]
-        opts = [s, flipat(s, 3), ("cond", variant(rng, s[1]), pl, s[3]), ("cond", s[1], shuffled(rng, pl), s[3])]
+        opts = [s, flipat(s, 3), ("cond", variant(rng, s[1]), pl, s[3]), ("cond", s[1], shuffled(rng, pl), s[3]),
+                ("conda", "iuse_stripped", s[1], pl, s[3])]
         if pl:
             i = rng.randrange(len(pl))
             opts += [("cond", s[1], pl[:i] + (variant(rng, pl[i]),) + pl[i + 1:], s[3])] * 2
@@ -882,6 +932,28 @@ WITNESSES = [
     (("depset", "=a/b-1* dev-libs/foo"), ("depset", "dev-libs/foo =a/b-1-r0*"), 9),
     (("pnode", "or", False, (("atom", "=a/b-1*", False), ("cat", "dev-libs", False))),
      ("pnode", "or", False, (("atom", "=a/b-1-r0*", False), ("cat", "dev-libs", False))), 3),
+    # round 4: the attribute tuple of the multi-attribute form / the attribute of a Conditional varies
+    (("multia", "slot,subslot", ("cont", "0", False, False), False), ("multia", "slot,category", ("cont", "0", False, False), False), 3),
+    (("multia", "slot,subslot", ("cont", "0", False, False), False), ("multia", "subslot,slot", ("cont", "0", False, False), False), 3),
+    (("multia", "iuse_stripped,use", ("udc", True, ("x",), False), False), ("multia", "use,iuse_stripped", ("udc", True, ("x",), False), False), 3),
+    (("multia", "iuse_stripped,use", ("udc", False, ("x", "y"), True), False), ("multia", "iuse_stripped,iuse_stripped", ("udc", False, ("x", "y"), True), False), 3),
+    (("multia", "slot,subslot", ("cont", "0", False, False), True), ("multia", "slot,category", ("cont", "0", False, False), True), 3),
+    (("multia", "slot,subslot", ("cont", "0", False, False), True), ("multia", "subslot,slot", ("cont", "0", False, False), True), 3),
+    (("multia", "iuse_stripped,use", ("udc", True, ("x",), False), True), ("multia", "use,iuse_stripped", ("udc", True, ("x",), False), True), 3),
+    (("multia", "iuse_stripped,use", ("udc", False, ("x", "y"), True), True), ("multia", "iuse_stripped,iuse_stripped", ("udc", False, ("x", "y"), True), True), 3),
+    (("multia", "slot,subslot", ("cont", ("0", "2"), True, False), False), ("multia", "subslot,slot", ("cont", ("0", "2"), True, False), False), 3),
+    (("multia", "slot,subslot", ("cont", "a", False, False), False), ("multia", "slot,subslot,category", ("cont", "a", False, False), False), 3),
+    (("multia", "slot,subslot", ("cont", "0", False, False), False), ("multia", "slot,nosuch", ("cont", "0", False, False), False), 3),
+    (("multia", "category,package", ("cont", "a", False, False), False), ("multia", "package,category", ("cont", "a", False, False), False), 3),
+    (("multia", "slot,repo.repo_id", ("cont", "gentoo", False, False), False), ("multia", "slot,category", ("cont", "gentoo", False, False), False), 3),
+    (("multia", "iuse_stripped,use", ("udc", True, ("x",), False), False), ("multi", ("udc", True, ("x",), False), False), 3),
+    (("multia", "iuse_stripped,use", ("udc", True, ("x",), False), False), ("udd", True, (), ("x",)), 3),
+    (("multia", "use,iuse_stripped", ("udc", True, ("x",), False), False), ("udd", True, (), ("x",)), 3),
+    (("multia", "slot,subslot", ("cont", "0", False, False), False), ("multia", "slot,subslot", ("cont", "0", False, False), True), 3),
+    (("multia", "slot,subslot", ("cont", "0", False, False), False), ("multia", "slot,subslot", ("cont", "2", False, False), False), 3),
+    (("conda", "use", ("cont", "x", False, False), (("cat", "a", False),), False), ("conda", "iuse_stripped", ("cont", "x", False, False), (("cat", "a", False),), False), 3),
+    (("cond", ("cont", "x", False, False), (("cat", "a", False),), False), ("conda", "iuse_stripped", ("cont", "x", False, False), (("cat", "a", False),), False), 3),
+    (("cond", ("cont", "x", False, False), (("cat", "a", False),), False), ("conda", "use", ("cont", "x", False, False), (("cat", "a", False),), False), 3),
     (("atom", "=a/b-1.0", False), ("atom", "=a/b-1.0", True), 3),
     (("atom", ">=a/b-1.0", False), ("atom", ">=a/b-1.0", True), 3),
     (("atom", "~a/b-1.0", False), ("atom", "~a/b-1.0", True), 3),
@@ -942,6 +1014,8 @@ def gen_pairs(chk):
             a = ("reqset", rng.choice(REQSETS))
         elif r < 0.66:
             a = g_rnode(rng)
+        elif r < 0.72:
+            a = g_multia(rng)
         else:
             a = g_pkg(rng)
         r = rng.random()
@@ -987,7 +1061,7 @@ def spec_atoms(s, acc):
     return acc
 
 
-_KINDS = {"rnode", "reqset", "exact", "glob", "regex", "cont", "udc", "ver", "vnode", "pr", "cat", "pkgdep", "slot", "subslot", "repo",
+_KINDS = {"multia", "conda", "rnode", "reqset", "exact", "glob", "regex", "cont", "udc", "ver", "vnode", "pr", "cat", "pkgdep", "slot", "subslot", "repo",
           "vm", "static", "udd", "multi", "cond", "pnode", "always", "negate", "atom", "depset"}
 
 
